@@ -57,6 +57,9 @@ def c04 (args : List String) : String :=
              | .ok v _ => shw v
              | .err => "R"
              | .fuel => "FUEL"
+         -- a byte buffer is not text: unpaired surrogate escapes inside it are outside the reference (and the model); such
+         -- cases (well-formed once the escapes are read leniently) are compared with serde_json only
+         if id == 26 && utf8Valid buf && (docTree false buf).isNone && (docTree true buf).isSome then "spec=NOTMODELLED model=NOTMODELLED" else
          (match decodeDoc ty buf with
           | some v => "spec=" ++ shw v
           | none => "spec=R") ++ " model=" ++ m
